@@ -266,6 +266,10 @@ def reexecute(rec, m, program, blockscan=False):
     for op, k, arg in program:
         if rec.failed or k not in rec.objs:
             break
+        if op in ("next", "skip_to", "skipq") and not rec.objs[k].is_active():
+            # (the program was recorded on another run: there this cursor was still active, and the driver
+            # never moves an exhausted one)
+            continue
         exec_op(rec, st, op, k, arg, blockscan)
     for k in st["live"]:
         if rec.failed:
